@@ -31,11 +31,11 @@ func init() {
 			Expect: "lay.rejected-nssai", Why: "PLMN-wide rejections carry the registration-area cause"},
 		Mutant{Name: "c13-rejected-len", Prop: "C13", File: ns, Old: "\trejectedNssaiNas.SetLen(uint8(len(byteArray)))", New: "\trejectedNssaiNas.SetLen(uint8(len(rejectedNssaiInPlmn) + len(rejectedNssaiInTa)))",
 			Expect: "lay.rejected-nssai", Why: "IE length counts entries, not octets"},
-		Mutant{Name: "c13-tai-count", Prop: "C13", File: tl, Old: "\tnumOfElementsNas := uint8(len(taiList)) - 1", New: "\tnumOfElementsNas := uint8(len(taiList))",
+		Mutant{Name: "c13-tai-count", Prop: "C13", File: tl, Old: "\t\tnumOfElementsNas := uint8(len(partialList)) - 1", New: "\t\tnumOfElementsNas := uint8(len(partialList))",
 			Expect: "lay.tai-list", Why: "number of elements not coded minus one"},
 		Mutant{Name: "c13-tai-type-shift", Prop: "C13", File: tl, Old: "uint8(typeOfList<<5)+numOfElementsNas", New: "uint8(typeOfList<<6)+numOfElementsNas",
 			Expect: "lay.tai-list", Why: "type of list one bit too high (only visible for several PLMNs)"},
-		Mutant{Name: "c13-tai-type2-order", Prop: "C13", File: tl, Old: "\t\t\t\ttaiListNas = append(taiListNas, plmnNas...)\n\t\t\t\ttaiListNas = append(taiListNas, tacBytes...)", New: "\t\t\t\ttaiListNas = append(taiListNas, tacBytes...)\n\t\t\t\ttaiListNas = append(taiListNas, plmnNas...)",
+		Mutant{Name: "c13-tai-type2-order", Prop: "C13", File: tl, Old: "\t\t\t\t\ttaiListNas = append(taiListNas, plmnNas...)\n\t\t\t\t\ttaiListNas = append(taiListNas, tacBytes...)", New: "\t\t\t\t\ttaiListNas = append(taiListNas, tacBytes...)\n\t\t\t\t\ttaiListNas = append(taiListNas, plmnNas...)",
 			Expect: "lay.tai-list", Why: "TAC before PLMN in type 10 elements"},
 		Mutant{Name: "c13-service-area-count", Prop: "C13", File: sa, Old: "uint8(numOfTacs-1)&0x1f", New: "uint8(numOfTacs)&0x1f",
 			Expect: "lay.service-area", Why: "number of elements not coded minus one"},
